@@ -49,11 +49,16 @@ func (r *AlterUserScramCredentialsRequest) encode(pe packetEncoder) error {
 			return err
 		}
 
-		// do not transmit the password over the wire
-		formatter := scramFormatter{mechanism: u.Mechanism}
-		salted, err := formatter.saltedPassword(u.Password, u.Salt, int(u.Iterations))
-		if err != nil {
-			return err
+		// do not transmit the password over the wire; a decoded request only
+		// has the salted password it received
+		salted := u.saltedPassword
+		if u.Password != nil || salted == nil {
+			var err error
+			formatter := scramFormatter{mechanism: u.Mechanism}
+			salted, err = formatter.saltedPassword(u.Password, u.Salt, int(u.Iterations))
+			if err != nil {
+				return err
+			}
 		}
 
 		if err := pe.putCompactBytes(salted); err != nil {
